@@ -30,13 +30,14 @@ TEXT = {
               'parser, compile, render tree (renderRoot_noPanic, include recursion bounded by fuel), and the whole value layer '
               '(stdPrims: comparison, contains, lookup, conversion, call, all modelled numeric/string/array filter bodies and the '
               'value filters json, inspect, type, i.e. the model of json.Marshal and of %T: StdNoPanic, ArrNoPanic, '
-              'json_inspect_type_noPanic; 47 of the 48 registered filters, all but date). Go panics are explicit in the model (Res.panic: nil map write, slice bounds, reflect kind '
+              'json_inspect_type_noPanic, and the date filter, i.e. the model of tuesday.Strftime, of the calendar and of ParseDate: '
+              'dateImpls_noPanic, date_filter_noPanic, time_values_noPanic; all 48 registered filters). Go panics are explicit in the model (Res.panic: nil map write, slice bounds, reflect kind '
               'errors, divide by zero, nil pointer dereference), so the theorem says none of those sites is reachable; '
               "termination is Lean's own check (no `partial`). Tie: every `robust` case line is answered by the model and by the "
               'real engine in a killable worker; results must agree and the real result must be output or a usable SourceError '
               'within the time budget.'),
     "design_ref": 'DESIGN.md 6 C01',
-    "note": NOTE + ('Parts of the code answered `unmodelled` (the date filter and time formatting, sort of more than 12 elements with an order that is not a strict weak order, '
+    "note": NOTE + ('Parts of the code answered `unmodelled` (date on strings other than the five all-digit layouts and with widths above 1024, times beyond +-2^62 s, sort of more than 12 elements with an order that is not a strict weak order, '
               'case mapping outside the modelled table, some float edge cases; counted in evidence) are covered by the oracle on '
               'the real code only. Time/space is measured on the implementation, not proved (the model has no cost semantics).'),
     "technique": ('Lean 4 proof (no-panic invariant by structural induction over the render tree and the value layer) + '
